@@ -227,6 +227,7 @@ class Scenario:
             if case.get("six"):
                 self.six = ObjectDBIndex(os.path.join(self.root, "ix"), "src")
         self.external = False  # objects were deleted behind the index's back
+        self.excluded = {}  # oracle checks skipped, by reason
         self.rounds = []  # observations
 
     def bytes_of(self, t, v):
@@ -529,8 +530,6 @@ def judge_c04(S):
                 if avail:
                     problems.append(("C04:retry-incomplete",
                                      f"round {ri}: fault-free retry left available object {S.tok.get(o, o)} out of the destination"))
-        elif oc[0] == "err" and not rs.get("fails") and rs.get("crash") is None:
-            pass
         prev = ob
     return problems
 
@@ -595,13 +594,23 @@ def judge_c11(S):
                 problems.append(("C11:transferred-wrong-bytes",
                                  f"round {ri}: {name(o)} reported transferred; destination bytes differ from the source's"))
         closed_before = not open_dirs(before) and not ob["external"]
-        if ob["dix_before"] is None or closed_before:
+        st_view = S.cache0 if S.cache0 is not None else S.src0
+        views_agree = all(st_view[o] == b for o, b in before.items() if is_dir(o) and o in st_view)
+        if ob["dix_before"] is not None and not (closed_before and views_agree):
+            S.excluded["absent-unreported:index-hypothesis"] = S.excluded.get("absent-unreported:index-hypothesis", 0) + 1
+        if not same_view:
+            S.excluded["absent-unreported:cache-source-disagree"] = S.excluded.get("absent-unreported:cache-source-disagree", 0) + 1
+        elif ob["dix_before"] is None or (closed_before and views_agree):
             for o in sorted(hashes):
                 if o not in after and o not in failed and o not in s_missing and o not in transferred:
                     problems.append(("C11:absent-unreported",
                                      f"round {ri}: {name(o)} is absent afterwards but neither failed nor missing"))
         attempted = set(ob["putorder"])
-        for o in sorted(before):
+        if not same_view:
+            # cache_odb and the source disagree about a requested directory's bytes: the two
+            # status calls expand different listings (reported to the owner; see ASSUMPTIONS)
+            S.excluded["resent:cache-source-disagree"] = S.excluded.get("resent:cache-source-disagree", 0) + 1
+        for o in sorted(before) if same_view else []:
             if o in attempted or o in transferred or o in failed:
                 problems.append(("C11:resent",
                                  f"round {ri}: {name(o)} was already in the destination but was "
